@@ -47,6 +47,9 @@ type World struct {
 	Wrap       map[string]map[string]common.Address // Wrap[c][d] = token on c wrapping d's origin token
 	// abstract heights: AbsH[c][k] = real header height proving the state after the k-th Commit of c
 	AbsH map[string][]int64
+	// AbsT[c][k]: the time of the block being built while c is at abstract height k (what a client update executed then records
+	// as its processing time)
+	AbsT map[string][]int64
 	// ground truth recorded at every commit: provable commitments/acks at AbsH[c][k]
 	Snap map[string][]SnapT
 	// every packet emitted by a PacketSent log, by "src/dst/seq" (abstract names)
@@ -97,7 +100,7 @@ func NewWorld(names []string) *World { return NewWorldAccts(names, worldAccts) }
 // NewWorldAccts is NewWorld with a caller-chosen account list per chain (index 0 = user, 1 = relayer, 2 = outsider).
 func NewWorldAccts(names []string, acctsOf func(string) []Acct) *World {
 	w := &World{Names: names, Chains: map[string]*Chain{}, ID: map[string]string{}, Abs: map[string]string{},
-		Origin: map[string]common.Address{}, Wrap: map[string]map[string]common.Address{}, AbsH: map[string][]int64{},
+		Origin: map[string]common.Address{}, Wrap: map[string]map[string]common.Address{}, AbsH: map[string][]int64{}, AbsT: map[string][]int64{},
 		Snap: map[string][]SnapT{}, Sent: map[string][]byte{}, SentHash: map[string]string{}, AckBytes: map[string][]byte{},
 		Now: StartTime, Fwd: map[string]common.Address{}, Marker: common.HexToAddress("0x00000000000000000000000000000000000eeeee")}
 	for _, n := range names {
@@ -192,7 +195,14 @@ var worldTrack func(on, name string) string
 
 func (w *World) tmClientState(tc *Chain, h *xibctmtypes.Header) *xibctmtypes.ClientState {
 	return xibctmtypes.NewClientState(tc.ChainID, xibctmtypes.DefaultTrustLevel, 14*24*time.Hour, 21*24*time.Hour, time.Hour,
-		h.GetHeight().(clienttypes.Height), commitmenttypes.GetSDKSpecs(), commitmenttypes.MerklePrefix{KeyPrefix: []byte("xibc")}, 0)
+		h.GetHeight().(clienttypes.Height), commitmenttypes.GetSDKSpecs(), commitmenttypes.MerklePrefix{KeyPrefix: []byte("xibc")}, worldDelay())
+}
+
+// worldDelay: the time delay of the world's Tendermint clients in nanoseconds (VERIF_XIBC_DELAY, default 0).  A delay of 1 ns
+// means: a proof at a height is honoured only in a later block than the one that stored the height.
+func worldDelay() uint64 {
+	n, _ := strconv.Atoi(os.Getenv("VERIF_XIBC_DELAY"))
+	return uint64(n)
 }
 
 // Retoggle: governance replaces chain cn's client of dn by a TSS client and then by a fresh Tendermint client at dn's
@@ -207,7 +217,7 @@ func (w *World) Retoggle(cn, dn string) (string, string) {
 	}
 	h := d.LastHdr
 	cs := xibctmtypes.NewClientState(d.ChainID, xibctmtypes.DefaultTrustLevel, 14*24*time.Hour, 21*24*time.Hour, time.Hour,
-		h.GetHeight().(clienttypes.Height), commitmenttypes.GetSDKSpecs(), commitmenttypes.MerklePrefix{KeyPrefix: []byte("xibc")}, 0)
+		h.GetHeight().(clienttypes.Height), commitmenttypes.GetSDKSpecs(), commitmenttypes.MerklePrefix{KeyPrefix: []byte("xibc")}, worldDelay())
 	p2, err := clienttypes.NewToggleClientProposal("t", "d", d.ChainID, cs, h.ConsensusState())
 	must(err)
 	if res, msg := c.ExecProposal(p2); res != "ok" {
@@ -293,6 +303,7 @@ func (w *World) Commit(n string) int {
 	c.LastHdr = SignedHeader(c.ChainID, c.Header.Height, c.Header.Time, c.Header.AppHash, c.Vals, c.Vals, c.Signers)
 	c.Hdrs[c.Header.Height] = c.LastHdr
 	w.AbsH[n] = append(w.AbsH[n], c.Header.Height)
+	w.AbsT[n] = append(w.AbsT[n], c.Header.Time.UnixNano())
 	snap := SnapT{Commits: map[string]string{}, Acks: map[string]string{}}
 	ctx := c.Ctx()
 	for _, pc := range c.App.XIBCKeeper.PacketKeeper.GetAllPacketCommitments(ctx) {
@@ -303,6 +314,18 @@ func (w *World) Commit(n string) int {
 	}
 	w.Snap[n] = append(w.Snap[n], snap)
 	return len(w.AbsH[n]) - 1
+}
+
+// UpgradeRev: governance upgrades chain cn's client of dn to the next revision of dn's chain id, at block 5 of that revision.
+func (w *World) UpgradeRev(cn, dn string) (string, string) {
+	c, d := w.Chains[cn], w.Chains[dn]
+	rev := clienttypes.ParseChainID(d.ChainID)
+	next := d.ChainID[:strings.LastIndex(d.ChainID, "-")+1] + strconv.FormatUint(rev+1, 10)
+	cs := xibctmtypes.NewClientState(next, xibctmtypes.DefaultTrustLevel, 14*24*time.Hour, 21*24*time.Hour, time.Hour,
+		clienttypes.NewHeight(rev+1, 5), commitmenttypes.GetSDKSpecs(), commitmenttypes.MerklePrefix{KeyPrefix: []byte("xibc")}, worldDelay())
+	p, err := clienttypes.NewUpgradeClientProposal("t", "d", d.ChainID, cs, d.LastHdr.ConsensusState())
+	must(err)
+	return c.ExecProposal(p)
 }
 
 // Regenesis restarts chain n's xibc module from its own exported genesis: export, JSON round trip, validation, the
@@ -1002,17 +1025,39 @@ func (w *World) Project(n string) M {
 			}
 			fees = append(fees, []interface{}{n, d, s, fee})
 		}
-		cl := M{"exists": false, "latest": -1, "cons": []int{}}
+		cl := M{"exists": false, "latest": -1, "cons": []int{}, "proc": [][]int{}}
 		if cs, ok := c.App.XIBCKeeper.ClientKeeper.GetClientState(ctx, did); ok {
 			cons := []int{}
+			drev := w.Chains[d].Revision()
 			c.App.XIBCKeeper.ClientKeeper.IterateConsensusStates(ctx, func(chainName string, s clienttypes.ConsensusStateWithHeight) bool {
-				if chainName == did {
+				if chainName == did && s.Height.RevisionNumber == drev { // (heights of a later revision installed by an upgrade are not abstract heights)
 					cons = append(cons, w.absHeightOf(d, s.Height.RevisionHeight))
 				}
 				return false
 			})
 			sort.Ints(cons)
-			cl = M{"exists": true, "latest": w.absHeightOf(d, cs.GetLatestHeight().GetRevisionHeight()), "cons": cons}
+			// proc: for every verified height the abstract height this chain was at when it stored it (from the recorded processing time)
+			proc := [][]int{}
+			cstore := c.App.XIBCKeeper.ClientKeeper.ClientStore(ctx, did)
+			c.App.XIBCKeeper.ClientKeeper.IterateConsensusStates(ctx, func(chainName string, s clienttypes.ConsensusStateWithHeight) bool {
+				if chainName == did && s.Height.RevisionNumber == drev {
+					at := -1
+					if pt, ok := xibctmtypes.GetProcessedTime(cstore, s.Height); ok {
+						for i, t := range w.AbsT[n] {
+							if uint64(t) == pt {
+								at = i
+							}
+						}
+					}
+					proc = append(proc, []int{w.absHeightOf(d, s.Height.RevisionHeight), at})
+				}
+				return false
+			})
+			latest := w.absHeightOf(d, cs.GetLatestHeight().GetRevisionHeight())
+			if cs.GetLatestHeight().GetRevisionNumber() != drev {
+				latest = 999 // XIBC.Beyond: the client was moved to another revision
+			}
+			cl = M{"exists": true, "latest": latest, "cons": cons, "proc": proc}
 		}
 		clients[d] = cl
 	}
